@@ -287,7 +287,7 @@ func run(c Case) kit.Result {
 
 var spec = kit.Spec[Case]{
 	Prop: "C08", Name: "main",
-	Rule: "trickle file of width 2..16 (weighted 2-4), raw|dag-pb leaves, optional CID builder, chunker size-1..512 (weighted 1-6 bytes) or small rabin-min-avg-max; base length weighted to full trickle layers +-1 chunk and partly filled sub-trees (0..300 chunks quick, up to 2500 thorough); 1-3 successive appends of 0..300 chunks; non-trivial = some append finds the root with more than width links (descends into the last child) or exactly on a layer boundary",
+	Rule:  "trickle file of width 2..16 (weighted 2-4), raw|dag-pb leaves, optional CID builder, chunker size-1..512 (weighted 1-6 bytes) or small rabin-min-avg-max; base length weighted to full trickle layers +-1 chunk and partly filled sub-trees (0..300 chunks quick, up to 2500 thorough); 1-3 successive appends of 0..300 chunks; non-trivial = some append finds the root with more than width links (descends into the last child) or exactly on a layer boundary",
 	Quick: 1500, Thorough: 5000,
 	Gen: gen, Run: run,
 }
